@@ -52,12 +52,21 @@ func (v *Vue) evalInclude(ctx VueContext, node *html.Node, vars map[string]any, 
 
 	assignSeenAttrs(name, compDom)
 
+	childCtx := ctx.WithTemplate(name)
+
 	// Validate and process template tag
-	processedDom, err := v.evalTemplate(ctx, compDom, ctx.stack.EnvMap(), depth+1)
+	processedDom, err := v.evalTemplate(childCtx, compDom, ctx.stack.EnvMap(), depth+1)
 	if err != nil {
 		return nil, fmt.Errorf("error in %s (included from %s): %w", name, ctx.FormatTemplateChain(), err)
 	}
 
-	childCtx := ctx.WithTemplate(name)
+	// A component whose root is a <template> wrapper (or a nested include) has been
+	// evaluated by evalTemplate already. Evaluating the result a second time would
+	// interpolate values again and treat every v-once element as already rendered.
+	rootIsTemplate := len(compDom) > 0 && compDom[0].Type == html.ElementNode && compDom[0].Data == "template"
+	if rootIsTemplate && (len(processedDom) == 0 || processedDom[0] != compDom[0]) {
+		return processedDom, nil
+	}
+
 	return v.evaluate(childCtx, processedDom, depth+1)
 }
